@@ -88,6 +88,11 @@ func ExecSched(s *Script) *sim.Outcome {
 		plan.Strategy = "replay"
 	}
 	res := sched.Run(plan, est, 400000, fns...)
+	for _, t := range s.Tasks {
+		for _, op := range t {
+			w.Stats.Inc("op.task-" + op.K)
+		}
+	}
 	w.Stats.Add("sim.steps", int64(res.Steps))
 	w.Stats.Add("sched.switches", int64(res.Switches))
 	w.Stats.Add("sched.decisions", int64(res.Decisions))
